@@ -456,6 +456,121 @@ def replay_evaluation(kind: str, n_ops: int, seed: int) -> dict:
     return {"failing": out["evaluation_differs"] is not None, "evaluation_differs": out["evaluation_differs"]}
 
 
+# ------------------------------------------------------------------------------------------------ trees from the resolver
+# The property is about the trees the two parsers return; the resolver, the package expansion and the time-condition
+# replacement hand out trees as well - built from the very same cache.  Editing THOSE trees must not show in later
+# parses either ("no matter what callers did with trees returned earlier").
+_RESOLVER_STRINGS = ["[1] U [2]", "[UB3]", "[UB1] O [3]", "[1P] U [2]", "[4] X [1P] O [2P0..1]", "Muss [1] U [2]",
+                     "Muss [UB3] Soll [2]", "Muss [1P] Kann [2] O [3]", "X [5] U [UB2]", "Soll ([1] O [2])[901] Kann"]
+_RESOLVER_PACKAGES = {"1P": "[7] U [8]", "2P": "[9][901]"}
+
+
+def _producers() -> Dict[str, Any]:
+    from ahbicht.expressions import expression_resolver as er
+
+    def resolver(rp: bool, rt: bool):
+        return lambda s: common.run(er.parse_expression_including_unresolved_subexpressions(
+            s, resolve_packages=rp, replace_time_conditions=rt))
+
+    return {"cond": lambda s: parse("cond", s), "ahb": lambda s: parse("ahb", s),
+            "resolve(packages=False,time=False)": resolver(False, False),
+            "resolve(packages=False,time=True)": resolver(False, True),
+            "resolve(packages=True,time=True)": resolver(True, True),
+            "expand_time_conditions(parse)": lambda s: er.expand_time_conditions(parse("cond", s)),
+            "expand_packages(parse)": lambda s: common.run(er.expand_packages(parse("cond", s)))}
+
+
+def _applicable(producer: str, text: str) -> bool:
+    is_ahb = text.split(" ")[0] in ("Muss", "Soll", "Kann", "X", "O", "U")
+    if producer == "ahb":
+        return is_ahb
+    if producer in ("cond", "expand_time_conditions(parse)", "expand_packages(parse)"):
+        return not is_ahb
+    return True
+
+
+def _vandalise(tree: Tree) -> int:
+    """in-place edits at every depth of a tree a caller was handed"""
+    edits = 0
+    for sub in list(tree.iter_subtrees()):
+        if sub.children:
+            sub.children[0] = Token("CONDITION_KEY", "777")
+            edits += 1
+        sub.children.append(Tree("condition", [Token("CONDITION_KEY", "888")]))
+        sub.data = "edited_" + str(sub.data)
+        edits += 2
+    return edits
+
+
+def _observe_all(text: str) -> Dict[str, Any]:
+    out = {}
+    for name, fn in _producers().items():
+        if _applicable(name, text):
+            try:
+                out[name] = show(fn(text))
+            except Exception as error:  # pylint:disable=broad-except  (the outcome, whatever it is, has to be stable)
+                out[name] = f"raised {type(error).__name__}"
+    # the strings the resolver parses internally are strings of the condition parser as well
+    for inner in ("[932][492]X[934][493]", "[7] U [8]", "[9][901]"):
+        out[f"cond({inner})"] = show(parse("cond", inner))
+    return out
+
+
+def replay_alias(producer: str, text: str) -> dict:
+    """from empty caches: observe every tree source for `text`, obtain a tree from `producer`, edit it in place at every
+    depth, observe again"""
+    common.configure_inject()
+    common.set_cer(make_cer(packages=dict(_RESOLVER_PACKAGES)))
+    clear_caches()
+    before = _observe_all(text)
+    for inner, key in (("[932][492]X[934][493]", "cond([932][492]X[934][493])"),):
+        expected = show(reference("cond", inner))
+        if before[key] != expected:
+            return {"failing": True, "producer": producer, "string": text, "observer": key, "before": expected,
+                    "after": before[key], "edits": 0}
+    tree = _producers()[producer](text)
+    edits = _vandalise(tree) if isinstance(tree, Tree) else 0
+    after = _observe_all(text)
+    for key in before:
+        if before[key] != after[key]:
+            return {"failing": True, "producer": producer, "string": text, "observer": key, "before": before[key],
+                    "after": after[key], "edits": edits}
+    return {"failing": False, "producer": producer, "string": text, "edits": edits, "observers": len(before)}
+
+
+def _alias_job(job: Tuple[str, str]) -> dict:
+    return replay_alias(*job)
+
+
+def run_resolver_histories(ctx) -> None:
+    t0 = time.time()
+    jobs = [(p, s) for s in _RESOLVER_STRINGS for p in _producers() if _applicable(p, s)]
+    results = pmap(_alias_job, jobs)
+    bad = [r for r in results if r["failing"]]
+    ctx.bounded("history/trees-handed-out-by-resolver-and-expansions", evaluations=sum(2 * r.get("observers", 8) + 1 for r in results),
+                distinct_nontrivial=len({(r["producer"], r["string"]) for r in results if r["edits"] > 0}),
+                rule="a case = (tree source, string): the tree obtained from that source was edited in place at every depth "
+                     "(child replaced, child appended, node renamed) and every tree source was observed before and after",
+                samples=[{"producer": r["producer"], "string": r["string"], "edits": r["edits"]} for r in results[:3]],
+                exhaustive=True, bound=f"{len(_RESOLVER_STRINGS)} strings x the tree sources applicable to them "
+                                       f"({len(jobs)} histories obtain / edit / observe, each from empty caches)",
+                seconds=time.time() - t0)
+    seen = set()
+    for r in bad:
+        key = (r["producer"], r["observer"])
+        if key in seen or len(seen) >= MAX_VIOLATIONS:
+            continue
+        again = replay_alias(r["producer"], r["string"])
+        if not again["failing"]:
+            raise RuntimeError(f"C11 harness: alias witness does not reproduce: {r!r}"[:800])
+        seen.add(key)
+        ctx.violation(obligation=f"bounded/history-resolver.{len(seen)}",
+                      message=(f"after editing in place the tree returned by {r['producer']}({r['string']!r}), "
+                               f"{again['observer']} returns {again['after']} instead of {again['before']}")[:1500],
+                      witness=again, replayed=True, signature=f"alias:{r['producer']}:{r['observer']}"[:160],
+                      replay_code=f"from bounded import c11\nprint(c11.replay_alias({r['producer']!r}, {r['string']!r}))")
+
+
 def run(ctx, tier: str, seed: int) -> None:
     thorough = tier == "thorough"
     rng = random.Random(seed)
@@ -533,4 +648,5 @@ def run(ctx, tier: str, seed: int) -> None:
                       witness=witness, replayed=True, signature=f"evaluation:{witness['expression']}",
                       replay_code=f"from bounded import c11\nprint(c11.replay_evaluation({history['kind']!r}, "
                                   f"{history['n_ops']}, {history['seed']}))")
+    run_resolver_histories(ctx)
     common.configure_inject()
